@@ -46,6 +46,20 @@ class C14(Hist1Prop):
             "distinct = hash of the op list")
     FIELDS = {"stats", "freq"}
 
+    def gen_narrow_values(self, rng):
+        """values handed to fill() as numpy scalars of a NARROW type (np.int8(100), np.int16(300), np.float32(16777216.0) then
+        np.float32(1.0), np.float16(300.0) ...): the statistics are those of the numbers entered, whatever type carried them"""
+        pairs = [[0.0, 128.0], [128.0, 512.0], [512.0, 131072.0], [131072.0, 33554432.0]]
+        b = gen1.binning_json(pairs, rng=rng, form="pairs")
+        ops = [{"op": "empty", "out": 0, "binning": b}]
+        pool = [(100, "int8"), (120, "int8"), (300, "int16"), (20000, "int16"), (70000, "int32"), (16777216.0, "float32"),
+                (1.0, "float32"), (3.0, "float32"), (300.0, "float16"), (2.5, "float16"), (3.0, "float64"), (7, "int64")]
+        for _ in range(rng.randint(2, 6)):
+            v, vk = rng.choice(pool)
+            w = rng.choice([1, 1, 2])
+            ops.append({"op": "fill", "h": 0, "v": rs(v), "w": rs(w), "wk": "pyint", "vk": vk, "default_w": w == 1 and rng.random() < 0.5})
+        return {"kind": "hist1", "ops": ops, "tags": ["mixed_history", "narrow_scalar_values"], "mixed": True, "tolerance": True}
+
     def gen_mixed(self, rng):
         """one histogram with a random HISTORY: fills, batches, in-place and copying rescalings (powers of two), in-place
         normalisation, copies, additions of histograms built from further data -- the statistics must at every point be
@@ -126,6 +140,11 @@ class C14(Hist1Prop):
                 if not st["valid"]:
                     fails.append(f"stats_invalid_history: statistics of register {r} are invalid after step {k} ({name})")
                     continue
+                bad = [f for f in ("weight", "sum", "sum2", "mean", "variance") if isinstance(st.get(f), str) and st[f].lstrip("-") in ("inf", "nan")]
+                if bad:
+                    fails.append(f"stats_nonfinite_history: register {r} after step {k} ({name}): {bad} are not finite although every value "
+                                 f"and weight entered is")
+                    continue
                 W = sum((w for _, w in pairs), Fraction(0))
                 S = sum((w * v for v, w in pairs), Fraction(0))
                 S2 = sum((w * v * v for v, w in pairs), Fraction(0))
@@ -148,6 +167,8 @@ class C14(Hist1Prop):
         return fails[:5]
 
     def gen_case(self, rng, k, tier):
+        if k % 12 == 7:
+            return self.gen_narrow_values(rng)
         if k % 3 == 1:
             return self.gen_mixed(rng)
         pairs = dy_bins(rng)
